@@ -119,7 +119,7 @@ def build_plain(src, lib_sources=(), extra_flags=(), std=None, sanitize=None, na
         if "20" in std:
             flags.append("-fcoroutines")
     if sanitize:
-        flags += ["-fsanitize=" + sanitize, "-fno-sanitize-recover=all", "-fno-omit-frame-pointer"]
+        flags = [f for f in flags if f != "-g0"] + ["-g1", "-fsanitize=" + sanitize, "-fno-sanitize-recover=all", "-fno-omit-frame-pointer"]
     srcdir = os.path.dirname(src)
     key = sha_files([src] + list(extra_srcs) + glob.glob(os.path.join(srcdir, "*.hpp")), repo_hash() + " ".join(flags) + " ".join(lib_sources))
     outdir = os.path.join(BUILD, key)
